@@ -361,6 +361,29 @@ pub fn single_faults(cmd: u8, schema: &MapSchema, root: &V, rng: &mut Rng) -> Ve
                 expect: Expect::MustReject(ST_INVALID_CBOR),
             });
         }
+        // the same content in the neighbouring representation (what a careless encoder does): a byte string as an
+        // array of small integers, a text string as a byte string, a byte string as text
+        let same_content: Vec<(&'static str, V)> = match get(root, &s.path) {
+            Some(V::B(b)) => {
+                let mut v = vec![("an array of its bytes as integers", V::A(b.iter().map(|x| V::U(*x as u64)).collect()))];
+                if std::str::from_utf8(b).is_ok() {
+                    v.push(("a text string with the same bytes", V::T(b.clone())));
+                }
+                v
+            }
+            Some(V::T(b)) => vec![("a byte string with the same bytes", V::B(b.clone())), ("an array of its bytes as integers", V::A(b.iter().map(|x| V::U(*x as u64)).collect()))],
+            _ => vec![],
+        };
+        for (kind, v) in same_content {
+            let r = replace(root, &s.path, |_| v.clone()).unwrap();
+            cases.push(Case {
+                class: "wrong_type",
+                site: s.name.clone(),
+                desc: format!("{} ({}) replaced by {}", s.name, own_kind(&s.ty), kind),
+                delivered: msg(cmd, &r),
+                expect: Expect::MustReject(ST_INVALID_CBOR),
+            });
+        }
         // ill-formed UTF-8 in every text member
         if let Ty::Text { .. } = s.ty {
             for bad in [vec![0xffu8], vec![0xc3, 0x28], vec![0xe2, 0x82], vec![0xed, 0xa0, 0x80]] {
